@@ -14,254 +14,13 @@
 (* re-synchronises on the real projection so that the rest of the trace    *)
 (* is still checked.  Traces are concatenated; an "init" line resets.      *)
 (***************************************************************************)
-EXTENDS MintAPI, Json, IOUtils
+EXTENDS MintJudge, Json, IOUtils
 
 Trace == ndJsonDeserialize(IOEnv.VERIF_TRACE)
 OutFile == IOEnv.VERIF_TAGS
 
 VARIABLES l, S, bad, stats
 vars == <<l, S, bad, stats>>
-
------------------------------------------------------------------------------
-(* property attribution of refusal causes                                   *)
-CauseProp(c) ==
-  CASE c \in {"spent", "pending", "dupin"} -> "C01"
-    [] c \in {"overspend", "ovf", "bigout", "overquote", "underfunded"} -> "C02"
-    [] c \in {"unpaid", "issued", "mqpending", "nut20", "lnerr"} -> "C03"
-    [] c \in {"badC", "badamt", "unknownks", "toolong"} -> "C04"
-    [] c \in {"lqpaid", "lqpending"} -> "C05"
-    [] c \in {"outinactive", "outunknownks"} -> "C09"
-    [] c \in {"lock"} -> "C12"
-    [] c \in {"maxmint", "maxbal", "maxmelt", "bigamt"} -> "C16"
-    [] OTHER -> "C06"
-
------------------------------------------------------------------------------
-(* projection comparison and adoption                                       *)
-
-EffSt(st, settled) == IF st = "UNPAID" /\ settled THEN "PAID" ELSE st
-
-ProofsEq(S2, post) ==
-  \A s \in DOMAIN post.proofs :
-     LET p == post.proofs[s] IN
-     /\ p.st = ProofSt(S2, s)
-     /\ p.st = "pending" => p.by = S2.proof[s].by
-\* the stored witness of a locked / spent proof is the one it was presented with (C15)
-WitEq(S2, post) ==
-  \A s \in DOMAIN post.proofs :
-     LET p == post.proofs[s] IN
-     (p.st = ProofSt(S2, s) /\ p.st \in {"pending", "spent"}) => p.wit = S2.proof[s].wit
-SigsEq(S2, post) ==
-  /\ DOMAIN post.sigs = DOMAIN S2.sig
-  /\ \A b \in DOMAIN S2.sig :
-       /\ post.sigs[b].ks = S2.sig[b].ks
-       /\ post.sigs[b].amt = S2.sig[b].amt
-       /\ S2.sig[b].tag \in {"", post.sigs[b].tag}
-MqEq(S2, post) ==
-  /\ DOMAIN post.mq = DOMAIN S2.mq
-  /\ \A q \in DOMAIN S2.mq : EffSt(post.mq[q].st, post.mq[q].settled) = EffMq(S2.mq[q])
-LqEq(S2, post) ==
-  /\ DOMAIN post.lq = DOMAIN S2.lq
-  /\ \A q \in DOMAIN S2.lq : post.lq[q].st = S2.lq[q].st /\ post.lq[q].pre = S2.lq[q].pre
-KsEq(S2, post) ==
-  /\ DOMAIN post.ks = DOMAIN S2.ks
-  /\ \A k \in DOMAIN S2.ks : post.ks[k].active = S2.ks[k].active /\ post.ks[k].fee = S2.ks[k].fee
-
-ProjEq(S2, post) ==
-  ProofsEq(S2, post) /\ WitEq(S2, post) /\ SigsEq(S2, post) /\ MqEq(S2, post) /\ LqEq(S2, post) /\ KsEq(S2, post)
-
-Diffs(S2, post) ==
-     (IF ProofsEq(S2, post) THEN {} ELSE {"proofs"})
-  \cup (IF WitEq(S2, post) THEN {} ELSE {"witness"})
-  \cup (IF SigsEq(S2, post) THEN {} ELSE {"sigs"})
-  \cup (IF MqEq(S2, post) THEN {} ELSE {"mq"})
-  \cup (IF LqEq(S2, post) THEN {} ELSE {"lq"})
-  \cup (IF KsEq(S2, post) THEN {} ELSE {"ks"})
-
-\* the spec state re-synchronised on the real projection (ghosts are kept)
-Adopt(S2, post) ==
-  LET touched == {s \in DOMAIN post.proofs : post.proofs[s].st # "unspent"}
-      base(s) == IF s \in DOMAIN S2.proof THEN S2.proof[s]
-                 ELSE [sigs |-> {}, st |-> "unspent", by |-> "", wit |-> "none", lock |-> "none", as |-> <<"", 0>>]
-      proof2 == [s \in DOMAIN S2.proof \cup touched |->
-                   IF s \in DOMAIN post.proofs
-                   THEN [base(s) EXCEPT !.st = post.proofs[s].st, !.by = post.proofs[s].by,
-                                        !.wit = IF post.proofs[s].st = "unspent" THEN "none" ELSE post.proofs[s].wit]
-                   ELSE base(s)]
-      sig2 == [b \in DOMAIN post.sigs |->
-                 IF b \in DOMAIN S2.sig
-                 THEN [S2.sig[b] EXCEPT !.tag = IF @ = "" THEN post.sigs[b].tag ELSE @]
-                 ELSE [ks |-> post.sigs[b].ks, amt |-> post.sigs[b].amt, sec |-> post.sigs[b].sec, tag |-> post.sigs[b].tag]]
-      \* a signature found in the store makes its secret a holder of value
-      proof3 == [s \in DOMAIN proof2 \cup {sig2[b].sec : b \in DOMAIN sig2} |->
-                   LET extra == {<<sig2[b].ks, sig2[b].amt>> : b \in {x \in DOMAIN sig2 : sig2[x].sec = s}}
-                   IN IF s \in DOMAIN proof2 THEN [proof2[s] EXCEPT !.sigs = @ \cup extra]
-                      ELSE [sigs |-> extra, st |-> "unspent", by |-> "", wit |-> "none", lock |-> "none", as |-> <<"", 0>>]]
-      mq2 == [q \in DOMAIN S2.mq \cap DOMAIN post.mq |->
-                 [S2.mq[q] EXCEPT !.st = post.mq[q].st, !.settled = post.mq[q].settled]]
-      lq2 == [q \in DOMAIN S2.lq \cap DOMAIN post.lq |->
-                 [S2.lq[q] EXCEPT !.st = post.lq[q].st, !.pre = post.lq[q].pre, !.truth = post.lq[q].truth]]
-      ks2 == [k \in DOMAIN post.ks |-> [fee |-> post.ks[k].fee, active |-> post.ks[k].active]]
-  IN [S2 EXCEPT !.proof = proof3, !.sig = sig2, !.mq = mq2, !.lq = lq2, !.ks = ks2,
-                !.lnin = post.lnin, !.lnout = post.lnout]
-
------------------------------------------------------------------------------
-(* per-event judgement: [tags, allowed] where tags are <<prop, reason>> and   *)
-(* allowed is the set of states MintAPI permits after the step given the     *)
-(* observed accept/reject.                                                   *)
-
-Tags(p, rs) == {<<p, r>> : r \in rs}
-SigTags(r) == [i \in DOMAIN r.sigs |-> r.sigs[i].tag]
-
-VerdictTags(ok, panic, causes, dontcare, acceptProp) ==
-  IF panic THEN {<<"C06", "panic">>}
-  ELSE IF ok /\ causes # {} THEN {<<CauseProp(c), "accepted-despite:" \o c>> : c \in causes}
-  ELSE IF ~ok /\ causes = {} /\ ~dontcare THEN {<<acceptProp, "refused-without-cause">>}
-  ELSE {}
-
-\* which property an unjustified refusal of honest inputs belongs to
-InputsAcceptProp(Sx, ins) ==
-  IF \E i \in DOMAIN ins : ins[i].ks \in DOMAIN Sx.ks /\ ~Sx.ks[ins[i].ks].active THEN "C09"
-  ELSE IF \E i \in DOMAIN ins : ins[i].lock # "none" THEN "C12"
-  ELSE "C04"
-
-J(tags, allowed) == [tags |-> tags, allowed |-> allowed]
-
-JudgeSwap(Sx, e) ==
-  LET c == SwapCauses(Sx, e.a) IN
-  J(VerdictTags(e.r.ok, e.r.panic, c, SwapDontCare(Sx, e.a), InputsAcceptProp(Sx, e.a.ins)),
-    IF e.r.ok THEN {SwapEffect(Sx, e.a, SigTags(e.r))} ELSE {Sx})
-
-JudgeMintQuote(Sx, e) ==
-  LET c == MintQuoteCauses(Sx, e.a, Balance(Sx)) IN
-  J(VerdictTags(e.r.ok, e.r.panic, c, FALSE, "C16"),
-    IF e.r.ok THEN {NewMintQuote(Sx, e.r.q, e.a)} ELSE {Sx})
-
-JudgeMint(Sx, e) ==
-  LET c == MintCauses(Sx, e.a)
-      Ss == IF e.a.q \in DOMAIN Sx.mq THEN SyncMq(Sx, e.a.q, e.a.lnerr) ELSE Sx
-  IN J(VerdictTags(e.r.ok, e.r.panic, c, MintDontCare(Sx, e.a), "C03"),
-       IF e.r.ok /\ e.a.q \in DOMAIN Sx.mq THEN {MintEffect(Ss, e.a, SigTags(e.r))} ELSE {Sx, Ss})
-
-JudgePollMint(Sx, e) ==
-  LET known == e.a.q \in DOMAIN Sx.mq
-      Ss == IF known THEN SyncMq(Sx, e.a.q, e.a.lnerr) ELSE Sx
-      c == IF ~known THEN {"noquote"} ELSE IF Sx.mq[e.a.q].st = "UNPAID" /\ e.a.lnerr THEN {"lnerr"} ELSE {}
-      replyTags == IF e.r.ok /\ known /\ e.r.st # Ss.mq[e.a.q].st
-                   THEN {<<"C03", "poll-reply-state:" \o e.r.st>>} ELSE {}
-  IN J(VerdictTags(e.r.ok, e.r.panic, c, FALSE, "C03") \cup replyTags, {Sx, Ss})
-
-JudgeMeltQuote(Sx, e) ==
-  LET c == MeltQuoteCauses(Sx, e.a) IN
-  J(VerdictTags(e.r.ok, e.r.panic, c, FALSE, "C16"),
-    IF e.r.ok THEN {NewMeltQuote(Sx, e.r.q, e.a, e.r)} ELSE {Sx})
-
-JudgeMelt(Sx, e) ==
-  LET c == MeltCauses(Sx, e.a)
-      feeTags == IF e.a.q \in DOMAIN Sx.lq /\ ~FeeLimitOk(Sx, e.a.q, e.a.ln)
-                 THEN {<<"C02", "fee-limit-exceeds-reserve">>} ELSE {}
-      allowed == IF e.r.ok /\ e.a.q \in DOMAIN Sx.lq THEN MeltOutcomes(Sx, e.a) ELSE {Sx}
-      replyTags == IF e.r.ok /\ e.a.q \in DOMAIN Sx.lq
-                      /\ ~\E S2 \in allowed : S2.lq[e.a.q].st = e.r.st /\ S2.lq[e.a.q].pre = e.r.pre
-                   THEN {<<"C05", "melt-reply:" \o e.r.st \o "/" \o e.r.pre>>} ELSE {}
-  IN J(VerdictTags(e.r.ok, e.r.panic, c, FALSE, InputsAcceptProp(Sx, e.a.ins)) \cup feeTags \cup replyTags, allowed)
-
-JudgePollMelt(Sx, e) ==
-  LET known == e.a.q \in DOMAIN Sx.lq
-      allowed == IF known THEN PollOutcomes(Sx, e.a.q, e.a.ln) ELSE {Sx}
-      c == IF known THEN {} ELSE {"noquote"}
-      replyTags == IF e.r.ok /\ known
-                      /\ ~\E S2 \in allowed : S2.lq[e.a.q].st = e.r.st /\ S2.lq[e.a.q].pre = e.r.pre
-                   THEN {<<"C05", "poll-reply:" \o e.r.st \o "/" \o e.r.pre>>} ELSE {}
-  IN J(VerdictTags(e.r.ok, e.r.panic, c, FALSE, "C05") \cup replyTags, allowed)
-
-\* a state check first resolves every pending melt it touches
-RECURSIVE ResolveAll(_, _, _)
-ResolveAll(Ss, qs, ln) ==
-  IF qs = {} THEN Ss
-  ELSE LET q == CHOOSE q \in qs : TRUE
-       IN ResolveAll(UNION {PollOutcomes(Sy, q, ln) : Sy \in Ss}, qs \ {q}, ln)
-
-JudgeCheckState(Sx, e) ==
-  LET ys == e.a.ys
-      qs == {Sx.proof[ys[i]].by : i \in {j \in DOMAIN ys : ys[j] \in DOMAIN Sx.proof /\ Sx.proof[ys[j]].st = "pending"}}
-      allowed == IF e.r.ok THEN ResolveAll({Sx}, qs, e.a.ln) ELSE {Sx}
-      dontcare == Len(ys) = 0
-      replyTags == IF e.r.ok /\ ~\E S2 \in allowed : StateCheckTruth(S2, ys, e.r.states)
-                   THEN {<<"C15", "statecheck-reply">>} ELSE {}
-  IN J(VerdictTags(e.r.ok, e.r.panic, {}, dontcare, "C15") \cup replyTags, allowed)
-
-JudgeRestore(Sx, e) ==
-  J(VerdictTags(e.r.ok, e.r.panic, {}, Len(e.a.bs) = 0, "C15")
-      \cup (IF e.r.ok /\ ~RestoreTruth(Sx, e.a.bs, e.r.outs, e.r.sigs) THEN {<<"C15", "restore-reply">>} ELSE {}),
-    {Sx})
-
-KsOf(f) == DOMAIN f
-JudgeBalances(Sx, e) ==
-  LET ks == DOMAIN Sx.ks
-      okIssued == \A k \in ks : (IF k \in DOMAIN e.r.issued THEN e.r.issued[k] ELSE 0) = IssuedBy(Sx, k)
-      okRedeemed == \A k \in ks : (IF k \in DOMAIN e.r.redeemed THEN e.r.redeemed[k] ELSE 0) = RedeemedBy(Sx, k)
-      okBal == e.r.balance = Balance(Sx) /\ Balance(Sx) >= 0
-      okDis == e.r.disabled = (Sx.lim.maxbal > 0 /\ Balance(Sx) >= Sx.lim.maxbal)
-  IN J(VerdictTags(e.r.ok, e.r.panic, {}, FALSE, "C16")
-        \cup (IF e.r.ok /\ ~okIssued THEN {<<"C16", "issued-total">>} ELSE {})
-        \cup (IF e.r.ok /\ ~okRedeemed THEN {<<"C16", "redeemed-total">>} ELSE {})
-        \cup (IF e.r.ok /\ ~okBal THEN {<<"C16", "balance">>} ELSE {})
-        \cup (IF e.r.ok /\ ~okDis THEN {<<"C16", "info-disabled">>} ELSE {}),
-       {Sx})
-
-JudgeKeysets(Sx, e) ==
-  LET okList == /\ DOMAIN e.r.list = DOMAIN Sx.ks
-                /\ \A k \in DOMAIN Sx.ks : /\ e.r.list[k].active = Sx.ks[k].active
-                                           /\ e.r.list[k].fee = Sx.ks[k].fee
-                                           /\ e.r.list[k].nkeys = 60
-                                           /\ e.r.list[k].unit = "sat"
-      okActive == \A k \in DOMAIN e.r.list : e.r.list[k].active <=> e.r.list[k].id = e.r.activeid
-  IN J(VerdictTags(e.r.ok, e.r.panic, {}, FALSE, "C09")
-        \cup (IF e.r.ok /\ ~(okList /\ okActive) THEN {<<"C09", "keyset-listing">>} ELSE {}),
-       {Sx})
-
-Judge(Sx, e) ==
-  CASE e.ev = "swap" -> JudgeSwap(Sx, e)
-    [] e.ev = "mintquote" -> JudgeMintQuote(Sx, e)
-    [] e.ev = "settle" -> J({}, {LnSettle(Sx, e.a.q)})
-    [] e.ev = "notify" -> J({}, {Notify(Sx, e.a.q)})
-    [] e.ev = "pollmint" -> JudgePollMint(Sx, e)
-    [] e.ev = "mint" -> JudgeMint(Sx, e)
-    [] e.ev = "meltquote" -> JudgeMeltQuote(Sx, e)
-    [] e.ev = "melt" -> JudgeMelt(Sx, e)
-    [] e.ev = "pollmelt" -> JudgePollMelt(Sx, e)
-    [] e.ev = "checkstate" -> JudgeCheckState(Sx, e)
-    [] e.ev = "restore" -> JudgeRestore(Sx, e)
-    [] e.ev = "balances" -> JudgeBalances(Sx, e)
-    [] e.ev = "keysets" -> JudgeKeysets(Sx, e)
-    [] e.ev = "rotate" -> J(VerdictTags(e.r.ok, e.r.panic, {}, FALSE, "C09"), IF e.r.ok THEN {Rotate(Sx, e.a.fee)} ELSE {Sx})
-    [] e.ev = "restart" -> J(VerdictTags(e.r.ok, e.r.panic, {}, FALSE, "C09"), IF e.r.ok THEN {Restart(Sx, e.a.rotate, e.a.fee)} ELSE {Sx})
-    [] OTHER -> J({<<"C00", "unknown-event:" \o e.ev>>}, {Sx})
-
-\* attribution of a projection mismatch
-DiffProp(e, d) ==
-  IF ~e.r.ok THEN "C06"
-  ELSE CASE d = "proofs" -> IF e.ev \in {"melt", "pollmelt", "checkstate"} THEN "C05" ELSE "C15"
-         [] d = "sigs" -> "C15"
-         [] d = "witness" -> "C15"
-         [] d = "mq" -> "C03"
-         [] d = "lq" -> "C05"
-         [] d = "ks" -> "C09"
-
-\* invariants evaluated on the re-synchronised state
-\* (edge-triggered: a broken invariant is reported at the step that breaks it)
-InvTags(Sold, S2) ==
-     (IF NoDoubleSpend(S2) \/ ~NoDoubleSpend(Sold) THEN {} ELSE {<<"C01", "secret-consumed-twice">>})
-  \cup (IF \A s \in DOMAIN Sold.proof : Sold.proof[s].st = "spent" => S2.proof[s].st = "spent"
-        THEN {} ELSE {<<"C01", "spent-not-forever">>})
-  \cup (IF \A s \in DOMAIN S2.proof : S2.proof[s].st = "both" => (s \in DOMAIN Sold.proof /\ Sold.proof[s].st = "both")
-        THEN {} ELSE {<<"C01", "pending-and-spent">>})
-  \cup (IF NoInflation(S2) \/ ~NoInflation(Sold) THEN {} ELSE {<<"C02", "inflation">>})
-  \cup (IF IssueOncePerPayment(S2) \/ ~IssueOncePerPayment(Sold) THEN {} ELSE {<<"C03", "issued-beyond-payments">>})
-  \cup (IF OneActiveKeyset(S2) \/ ~OneActiveKeyset(Sold) THEN {} ELSE {<<"C09", "not-exactly-one-active-keyset">>})
-
-StateFromInit(e) ==
-  InitState([k \in DOMAIN e.post.ks |-> [fee |-> e.post.ks[k].fee, active |-> e.post.ks[k].active]], e.a.limits)
 
 -----------------------------------------------------------------------------
 Init == l = 1 /\ S = InitState(<< >>, [maxbal |-> 0, maxmint |-> 0, maxmelt |-> 0]) /\ bad = {} /\ stats = [events |-> 0, accepted |-> 0, rejected |-> 0]
